@@ -8,7 +8,10 @@ Oracle: harness/batchdb/oracles.py::c41 after every op of every history (a job o
 Ready / Creating / Running / a terminal state, is never returned by the REAL selection queries of pool.py /
 job_private.py / canceller.py run as scheduler_pick / canceller_pick, is never moved by schedule / creating / started)
 and ::c41_noninterference on the driver-in-the-loop histories (the history is re-run with the never-committed last
-update erased and the observable projections are compared) — non-interference is TESTED there, not proved.
+update erased and the observable projections are compared).  The same erasure / projection is the subject of the model
+theorem C41_noninterference_partial (coq/theories/BatchDB/NonInterf*.v: `erase` mirrors erase_last_uncommitted_update,
+`proj` mirrors restrict); it is PARTIAL (some transaction classes are not covered yet, see META), so for those the oracle's
+rerun is the only check.  Counters / tallies clauses: coq/theories/BatchDB/Inert.v (corollaries of the C01 / C06 invariants).
 """
 from harness.batchdb import family
 
@@ -21,7 +24,8 @@ META = dict(
     technique='Coq invariant proof over all histories of an executable model of the batch database + '
               'correspondence of the model with the real SQL routines/handlers on a MySQL-subset interpreter; '
               'the selection predicate of the scheduler/canceller is a hand model of the WHERE clauses of their queries; '
-              'non-interference only tested by an update-erasure rerun on the implementation',
+              'non-interference: simulation proof (projection commutes with every supported transaction) in the model + the '
+              'update-erasure rerun of the oracle on the implementation',
     level_text='PARTIAL. Machine-checked (Coq 8.16, closed under the global context) about the batch-database model: '
                '(1) for ALL good histories (legal driver/worker messages, schema-valid client requests; any interleaving of bunch inserts, '
                'late or missing commits, completions / cancellations of earlier updates): a job of an update that is not committed has no '
@@ -41,10 +45,34 @@ META = dict(
                '(4) "whatever happens to their parents", from ANY state: a completion report for another job leaves a job of an uncommitted '
                'update exactly as it was (C41_parent_completion_does_not_release; the defect repaired by migration 122, whose corpus history '
                'evaluates in the model to "child stays Pending, not selectable, forged schedule refused": C41_corpus_child_not_released). '
-               'NOT proved here: "never counted in scheduling counters or batch/job-group tallies, never change completeness" belong to the counter '
-               'properties C01 (scheduling counters) and C06 (group tallies / completeness) of this family and are not restated; the '
-               'non-interference clause ("an update that is never committed leaves the batch exactly as if it had not been started") is only '
-               'checked on the implementation by the oracle\'s update-erasure rerun (oracles.c41_noninterference).',
+               '(5) "never counted ... never change completeness" (Inert.v, from the invariants of C01 and C06, all good histories): the 8 columns of '
+               'user_inst_coll_resources and the 5 columns of job_group_inst_coll_cancellable_resources (committed update, group not cancelled) are '
+               'recounts over cjobs = the jobs of COMMITTED updates only; the rows of an open update hold no creating/running job and ready jobs only '
+               'for update 1; the five tallies of every job group, n_jobs of every batch and the complete/running flag of every group and batch are '
+               'functions of the committed jobs only (complete iff all COMMITTED jobs of the subtree are terminal); a group without committed jobs '
+               'has all tallies 0 and is complete (C41_user_counters_committed_only, C41_group_cancellable_committed_only, '
+               'C41_group_cancellable_open_update, C41_tallies_committed_only, C41_batch_tally_committed_only, C41_group_without_committed_jobs); '
+               'every attempt row belongs to a job of a committed update (C41_attempts_of_committed_jobs). The analogue for the GROUPS of an open '
+               'update is FALSE without a sequential client (C41_open_update_group_running_refuted: update 1 puts a job into a group of the open '
+               'update 2 and is committed: that group becomes running with n_jobs 1). '
+               '(6) history form of inertness: the row of a job of an update still open after ops ++ ext is after ops ++ ext exactly the row it was '
+               'after ops, without attempt, Pending/Ready (C41_uncommitted_row_frozen, C41_uncommitted_row_constant). '
+               '(7) NON-INTERFERENCE, PARTIAL (NonInterf*.v): erase = the erasure of oracles.erase_last_uncommitted_update (create_update with the '
+               'update\'s token, create_groups/create_jobs/commit of the update, every request naming a job / cancelling a group in its reserved '
+               'ranges, entries of billing updates naming such jobs); proj = the state without the update\'s rows (its batch_updates row, its jobs, '
+               'parent edges, groups, ancestor rows, cancellable/staging rows; batches, marks, user counters, attempts, instances, billing and id '
+               'counters kept as they are). For every good history pre ++ open :: post in which open creates update U of batch B while every other '
+               'update of B is committed, U is never committed and stays the last update of B, and post consists of supported transactions: '
+               'run (pre ++ erase post) = proj (run (pre ++ open :: post)) - every row not belonging to U is identical (C41_noninterference_partial; '
+               'state form C41_noninterference_phase2_partial from any state satisfying the simulation invariant; hypotheses satisfiable and both '
+               'runs computed: C41_noninterference_nonvacuous). Supported: every driver / worker / instance / billing transaction (schedule, '
+               'unschedule, creating, started, complete incl. release of children, deactivate, add resources, billing update, instance life cycle), '
+               'create_update (any batch), create_groups / create_jobs / commit of batch B (those of U erased, the others refused in both runs), '
+               'staging clean-up. MISSING transaction cases: create_batch, create_groups / create_jobs / commit of OTHER batches while U is open, '
+               'cancel_job_group, delete_batch, cancellable clean-up; the results of the transactions are not compared (states only); on pre the '
+               'erasure is shown to be the identity only for the example. Extra hypotheses: sequential client at the opening of U (needed: see '
+               'C41_open_update_group_running_refuted), no row with U\'s keys before U is opened (proj (run pre) = run pre), all group ids below '
+               'G0 exist. For the missing cases the clause is checked on the implementation only (oracles.c41_noninterference).',
     level_note='Trusted: Coq kernel; the sampled model-vs-implementation correspondence and the minisql engine; Pick.pickable / Pick.estimated as a '
                'superset of the WHERE clauses of user_runnable_jobs (pool.py, job_private.py), schedule_jobs_loop_body (job_private.py), '
                'user_cancelled_{ready,creating,running}_jobs (canceller.py) and the ready-cores estimate (pool.py): job state Ready/Creating/Running '
@@ -62,7 +90,10 @@ ASSUMPTIONS = family.COMMON_ASSUMPTIONS + [
     'updates of one batch are committed in the order of their ids (Legal.earlier_committed): guaranteed by the hailtop client (one update at a '
     'time), NOT enforced by the service - without it the property is refuted (open finding '
     'C41:uncommitted-job-offered-by-scheduler:staged-update-1-job-while-later-update-committed)',
-    'counters / tallies clauses are covered by C01 and C06; non-interference is tested (update-erasure rerun), not proved',
+    'non-interference theorem: the client opens the erased update when all other updates of its batch are committed (hailtop client: one '
+    'update at a time); the erased update is the last of its batch and never committed; no counter / job / group row carries its keys before '
+    'it is opened; transactions outside the supported set (create_batch, other batches\' create_groups/create_jobs/commit while the update is '
+    'open, cancel_job_group, delete_batch, cancellable clean-up) are covered by the oracle\'s update-erasure rerun only',
 ]
 
 correspond = family.correspond
